@@ -119,7 +119,8 @@ class DirectMethod:
             self.opti.transcribe_placeholders(phase, kwargs["placeholders"])
 
     def transcribe(self, stage, phase=1, **kwargs):
-        if stage.nx>0 or stage.nu>0:
+        if stage.nx>0 or stage.nu>0 or stage.nz>0 or stage.nxq>0 or len(stage._alg)>0 or \
+            any(len(stage.variables[g])>0 or len(stage.parameters[g])>0 for g in ['control','control+','states','bspline'] if g in stage.variables or g in stage.parameters):
             raise Exception("You forgot to declare a method. Use e.g. ocp.method(MultipleShooting(N=3)).")
         if phase==0: return
         if phase>1: return
